@@ -167,7 +167,7 @@ def evalCmp (v : Option Val) (op : Op) (l : Lit) : Tri × Classes :=
     | some (.str s) =>
       -- a wildcard against a value that holds a LINE FEED: the engine turns the pattern into a regular expression whose
       -- `.` does not cross a line break; whether `*` does is not stated — left to the engine
-      if p.contains '*' && s.contains '\n' && (op == .eq || op == .ne) then (.either, []) else
+      if p.contains '*' && s.contains '\n' && glob p s && (op == .eq || op == .ne) then (.either, []) else
       match op with
       | .eq => (Tri.ofBool (glob p s), [])
       | .ne => (Tri.ofBool (!glob p s), [])
@@ -232,8 +232,10 @@ def evalFilterAux (e : Event) (neg : Bool) : Filter → Tri × Classes
     -- by the BLANK only — a tab, a line feed or a carriage return is part of the word, for the record-level matcher and
     -- the block bloom alike: `termMatches` splits at " ".)
     let noLf : Event := { e with fields := e.fields.filter (fun (_, v) => !v.text.contains '\n') }
+    -- (so a wildcard term is decided only when it matches a WHOLE value that holds no line feed)
+    let wholeNoLf := noLf.fields.any (fun (_, v) => glob w v.text)
     let t := if termMatches w e then
-        (if w.contains '*' && (!whole || !termMatches w noLf) then Tri.either else Tri.yes) else Tri.no
+        (if w.contains '*' && !(whole && wholeNoLf) then Tri.either else Tri.yes) else Tri.no
     (t, [])
   | .phrase cs p =>
     -- (wildcards inside CASE(…) / a phrase are matched by the engine against whole values: not generated, left open)
